@@ -49,7 +49,8 @@ def _codecs_for(desc):
 
 
 def gen_plan(r, index, tier):
-    w, cfg = common.gen_stream_workload(r, max_values=3, small=True, force_codec='ber', allow_f2=False)
+    w, cfg = common.gen_stream_workload(r, max_values=3, small=True, force_codec='ber', allow_f2=False,
+                                        constructed_default=r.random() < 0.4)
     desc = w['desc']
     nv = len(w['values'])
     codecs = _codecs_for(desc)
@@ -551,6 +552,34 @@ def _aliasing_probe(ctx, tasks_run, snap_schema, snap_values):
         before = [U.snapshot(b) for _, b in others]
         nodes = []
         _constructed_nodes(a, nodes)
+        # what an application does with a decoded result: read its components (which instantiates
+        # absent DEFAULT/OPTIONAL slots from the schema) and edit them in place
+        for node in list(nodes):
+            if isinstance(node, (U.p.univ.Sequence, U.p.univ.Set)) and not isinstance(node, U.p.univ.Choice):
+                for i in range(len(node.componentType)):
+                    try:
+                        c = node.getComponentByPosition(i)
+                    except Exception:
+                        continue
+                    if isinstance(c, (U.p.univ.SequenceOf, U.p.univ.SetOf, U.p.univ.Sequence, U.p.univ.Set)) and \
+                            not any(c is n_ for n_ in nodes):
+                        nodes.append(c)
+        for node in reversed(nodes):
+            try:
+                if isinstance(node, (U.p.univ.SequenceOf, U.p.univ.SetOf)) and node.componentType is not None:
+                    node.setComponentByPosition(len(node))        # in-place growth of the component store
+                    if len(node) > 1:
+                        node.setComponentByPosition(0, node.getComponentByPosition(len(node) - 2))
+            except Exception:
+                pass
+        if U.snapshot(ctx.schema) != snap_schema:
+            raise W.Violation('result-aliases-schema', result=ai, how='in-place edit')
+        for i, v in enumerate(ctx.values):
+            if U.snapshot(v) != snap_values[i]:
+                raise W.Violation('result-aliases-input', result=ai, value=i, how='in-place edit')
+        for (bi, b), sb in zip(others, before):
+            if U.snapshot(b) != sb:
+                raise W.Violation('results-alias-each-other', result=ai, other=bi, how='in-place edit')
         for node in reversed(nodes):
             try:
                 node.clear()
